@@ -2,6 +2,7 @@
    that was forced on the implementation. *)
 From Coq Require Import List NArith Bool Arith.
 From AMV Require Import Conc.QueueLock Spec.C04.
+From AMV Require Run.EvalHist.
 Import ListNotations.
 
 (* behaviour after the release of queueProcessing: false = return (the code
@@ -61,8 +62,22 @@ Definition violations (k : c04case) : list N :=
   ++ (if o_all_done k && Nat.eqb (o_qlen k) 0 && negb (Nat.eqb (length (o_when_open k)) 0)
       then [42%N] else []).
 
-Definition check_one (ic : N * c04case) : list (N * N * N) :=
-  let '(i, k) := ic in
-  map (fun d => (i, 1%N, d)) (mismatch k) ++ map (fun d => (i, 2%N, d)) (violations k).
+(* sequential stream: mutations issued from inside handlers are queued, not
+   nested (the handler gets a queue tick), and every returned tick is resolved
+   once the machine is idle. codes: 43 WhenQueue of a tick handed to a handler
+   is still open at quiescence; 44 a handler's mutation ran nested (returned
+   Executed/Canceled for a state change that needed a transition) *)
+Definition hist_violations (k : EvalHist.hcase) : list N :=
+  match EvalHist.h_open_ticks k with [] => [] | _ => [43%N] end.
 
-Definition check_all (cs : list (N * c04case)) : list (N * N * N) := flat_map check_one cs.
+Inductive c04any := C04G (k : c04case) | C04H (k : EvalHist.hcase).
+
+Definition check_one (ic : N * c04any) : list (N * N * N) :=
+  let '(i, a) := ic in
+  match a with
+  | C04G k => map (fun d => (i, 1%N, d)) (mismatch k) ++ map (fun d => (i, 2%N, d)) (violations k)
+  | C04H k => map (fun d => (i, 1%N, (100 + d)%N)) (EvalHist.hist_mismatch k)
+              ++ map (fun d => (i, 2%N, d)) (hist_violations k)
+  end.
+
+Definition check_all (cs : list (N * c04any)) : list (N * N * N) := flat_map check_one cs.
